@@ -33,7 +33,11 @@ Section Crash.
   | SCopy (j i : Z)                  (* j := copy of i (vector, costs, signed costs; state EMPTY) *)
   | SExec (c i : Z)                  (* execute(upsert, [id, json.dumps(to_dict())]) on connection c *)
   | SCommit (c : Z)                  (* conn.commit() *)
-  | SReturn (i : Z).                 (* a synchronisation of i has returned to its caller *)
+  | SReturn (i : Z)                  (* a synchronisation of i has returned to its caller *)
+  | SReopen                          (* the process is gone; a new one opens the file in write mode:
+                                        read_from_datastore rebuilds an Individual from every committed row *)
+  | SNew (i : Z) (v : list jv).      (* Individual(v) is created with id i (ids restart in a new process, so i may
+                                        be the id of an older individual: the model keeps one object per id, the newest) *)
 
   Record cstate := {
     c_mem : Z -> individual;               (* the Python objects *)
@@ -67,6 +71,12 @@ Section Crash.
     {| i_id := j; i_vector := i_vector x; i_costs := i_costs x; i_costs_signed := i_costs_signed x;
        i_state := Empty; i_population_id := i_population_id x; i_algorithm_id := i_algorithm_id x;
        i_custom := i_custom x; i_features := i_features x; i_parents := []; i_children := [] |}.
+
+  (* a fresh individual as Individual(vector) builds it *)
+  Definition fresh (i : Z) (v : list jv) : individual :=
+    {| i_id := i; i_vector := v; i_costs := []; i_costs_signed := JArr []; i_state := Empty;
+       i_population_id := JNum (NInt (-1)); i_algorithm_id := JNum (NInt 0); i_custom := JObj [];
+       i_features := []; i_parents := []; i_children := [] |}.
 
   Definition apply_pending (p : list (Z * jv)) (db : store) : store :=
     fold_left (fun d kr => upsert (fst kr) (snd kr) d) p db.
@@ -104,6 +114,14 @@ Section Crash.
     | SReturn i =>
         {| c_mem := c_mem st; c_pend := c_pend st; c_db := c_db st; c_synced := c_synced st;
            c_ret := i :: c_ret st; c_ph := c_ph st |}
+    | SReopen =>
+        {| c_mem := fun i => match lookup i (c_db st) with Some r => loaded_of_row i r | None => c_mem st i end;
+           c_pend := fun _ => [];                    (* the old connections died with their process *)
+           c_db := c_db st; c_synced := c_synced st; c_ret := c_ret st;
+           c_ph := fun i => match lookup i (c_db st) with Some _ => 4%nat | None => c_ph st i end |}
+    | SNew i v =>
+        {| c_mem := upd (c_mem st) i (fresh i v); c_pend := c_pend st; c_db := c_db st; c_synced := c_synced st;
+           c_ret := c_ret st; c_ph := upd (c_ph st) i 0%nat |}
     end.
 
   Definition run_steps (tr : list step) (st : cstate) : cstate := fold_left do_step tr st.
@@ -129,6 +147,8 @@ Section Crash.
     | SExec _ i => Nat.eqb (c_ph st i) 4
     | SCommit _ => true
     | SReturn i => existsb (Z.eqb i) (c_synced st)
+    | SReopen => true
+    | SNew _ _ => true
     end.
 
   Fixpoint legal (st : cstate) (tr : list step) : bool :=
@@ -146,12 +166,6 @@ Section Crash.
   Definition sync_all_steps (c : Z) (ids : list Z) : list step :=
     map (SExec c) ids ++ [SCommit c] ++ map SReturn ids.
 
-  (* a fresh individual as Individual(vector) builds it *)
-  Definition fresh (i : Z) (v : list jv) : individual :=
-    {| i_id := i; i_vector := v; i_costs := []; i_costs_signed := JArr []; i_state := Empty;
-       i_population_id := JNum (NInt (-1)); i_algorithm_id := JNum (NInt 0); i_custom := JObj [];
-       i_features := []; i_parents := []; i_children := [] |}.
-
   Fixpoint vector_of (designs : list (Z * list jv)) (i : Z) : list jv :=
     match designs with
     | [] => []
@@ -163,10 +177,11 @@ Section Crash.
        c_synced := []; c_ret := []; c_ph := fun _ => 0%nat |}.
 
   (* an individual whose stored image is complete: costs and signed costs belong to its vector, and it
-     is EVALUATED (or the EMPTY-state copy of an evaluated one that NSGA-II records) *)
+     is EVALUATED (or the EMPTY-state copy of an evaluated one that NSGA-II records, or such an individual
+     reloaded from the file by a later session) *)
   Definition consistent (x : individual) : Prop :=
     i_costs x = objective (i_vector x) /\ i_costs_signed x = signed (i_vector x) (i_costs x) /\
-    (i_state x = Evaluated \/ i_state x = Empty).
+    (i_state x = Evaluated \/ i_state x = Empty \/ i_state x = Loaded).
 
   Definition good_row (k : Z) (r : jv) : Prop := exists x, r = to_dict x /\ i_id x = k /\ consistent x.
 End Crash.
